@@ -165,7 +165,9 @@ func (g *InterProceduralFlowGraph) BuildGraph() {
 	// Writes the summaries to file if the option is set
 	if summariesFile != nil {
 		// Read-only operation on summaries
+		summariesWritten := make(chan struct{})
 		go func() {
+			defer close(summariesWritten)
 			for _, summary := range g.Summaries {
 				if summary == nil {
 					continue
@@ -175,6 +177,9 @@ func (g *InterProceduralFlowGraph) BuildGraph() {
 				_, _ = summariesFile.WriteString("\n")
 			}
 		}()
+		// The summaries must be written before the linking step below mutates them (and inserts into g.Summaries), and
+		// before the deferred Close of the file runs when this function returns.
+		<-summariesWritten
 	}
 
 	// STEP 3: link all the summaries together
